@@ -94,6 +94,11 @@ pub struct Sig {
     pub extern_bare: bool,
     pub maybe_send_off: bool,
     pub vis: &'static str,
+    /// `T: 'l` for `&'l T` parameters is written inline where `T` is declared (`T: Default + 'l`), not in the where clause
+    pub outlives_inline: bool,
+    /// a type parameter `P` and a const parameter `K` that appear in no parameter type and not in the return type:
+    /// callers name them (turbofish / trait arguments), nothing can infer them
+    pub phantom: bool,
 }
 
 const LT: [&str; 3] = ["'a", "'b", "'c"];
@@ -159,6 +164,33 @@ impl Sig {
     }
 
     fn generics_src(&self) -> (String, String) {
+        let (g, w) = self.generics_parts();
+        (if g.is_empty() { String::new() } else { format!("<{}>", g.join(", ")) }, if w.is_empty() { String::new() } else { format!(" where {}", w.join(", ")) })
+    }
+
+    /// explicit generic arguments for naming the fn item: `::<_, i64, 3, u16, 7>` in declaration order (only needed, and only
+    /// written, when something cannot be inferred)
+    fn turbofish(&self) -> String {
+        if !self.phantom {
+            return String::new();
+        }
+        let (g, _) = self.generics_parts();
+        let args: Vec<&str> = g
+            .iter()
+            .filter(|e| !e.starts_with('\''))
+            .map(|e| match e.split(':').next().unwrap_or("").trim() {
+                "D" => "_",
+                "T" => "i64",
+                "const N" => "3",
+                "P" => "u16",
+                "const K" => "7",
+                other => panic!("turbofish: {other}"),
+            })
+            .collect();
+        format!("::<{}>", args.join(", "))
+    }
+
+    fn generics_parts(&self) -> (Vec<String>, Vec<String>) {
         let mut g: Vec<String> = vec![];
         let mut w: Vec<String> = vec![];
         if self.deps == Deps::ConcreteRefNamed {
@@ -205,10 +237,18 @@ impl Sig {
                 b.push("Send");
                 b.push("Sync");
             }
+            let mut inline_outlives = false;
             if self.explicit_outlives && self.params.iter().any(|p| matches!(p, PTy::RefGenNamed(_))) {
-                // `&'l T` needs `T: 'l`; written explicitly in the where clause
+                // `&'l T` needs `T: 'l`; written explicitly in the where clause, or inline where T is declared
                 for p in &self.params {
                     if let PTy::RefGenNamed(l) = p {
+                        if self.outlives_inline {
+                            if !b.contains(&LT[*l]) {
+                                b.push(LT[*l]);
+                            }
+                            inline_outlives = true;
+                            continue;
+                        }
                         let pred = format!("T: {}", LT[*l]);
                         if !w.contains(&pred) {
                             w.push(pred);
@@ -216,7 +256,7 @@ impl Sig {
                     }
                 }
             }
-            if self.gen_bound_where {
+            if self.gen_bound_where && !inline_outlives {
                 g.push("T".into());
                 w.push(format!("T: {}", b.join(" + ")));
             } else {
@@ -226,6 +266,10 @@ impl Sig {
         if self.has_const {
             g.push("const N: usize".into());
         }
+        if self.phantom {
+            g.push("P: Default".into());
+            g.push("const K: usize".into());
+        }
         // the dependency's type parameter need not be the first one: it may follow other type / const parameters
         if let Some(at) = g.iter().position(|p| p == "D" || p.starts_with("D:")) {
             let first = g.iter().position(|p| !p.starts_with('\'')).unwrap_or(0);
@@ -233,7 +277,7 @@ impl Sig {
             let slots = g.len() - first + 1;
             g.insert(first + (self.deps_param_pos % slots), d);
         }
-        (if g.is_empty() { String::new() } else { format!("<{}>", g.join(", ")) }, if w.is_empty() { String::new() } else { format!(" where {}", w.join(", ")) })
+        (g, w)
     }
 
     fn deps_param(&self) -> Option<String> {
@@ -353,6 +397,10 @@ impl Sig {
         if self.has_const {
             a.push("3");
         }
+        if self.phantom {
+            a.push("u16");
+            a.push("7");
+        }
         if a.is_empty() {
             String::new()
         } else {
@@ -457,8 +505,15 @@ impl Sig {
             a.join(", ")
         };
         let (open, close) = if self.is_unsafe { ("unsafe { ", " }") } else { ("", "") };
-        let _ = trait_name;
-        let call = if with_method { format!("recv.{fn_name}({})", args.join(", ")) } else { format!("{fn_name}({direct_args})") };
+        let call = if with_method && self.phantom {
+            let mut a = vec!["recv".to_string()];
+            a.extend(args.iter().cloned());
+            format!("<{} as {trait_name}{}>::{fn_name}({})", self.self_ty(), self.trait_args(), a.join(", "))
+        } else if with_method {
+            format!("recv.{fn_name}({})", args.join(", "))
+        } else {
+            format!("{fn_name}{}({direct_args})", self.turbofish())
+        };
         if self.is_async {
             let send = if with_method && !self.maybe_send_off { "    is_send(&fut);\n" } else { "" };
             format!("fn witness_call{gs}({}) {{\n    let fut = {open}{call}{close};\n    let _: PhantomData<{ret}> = out(&fut);\n{send}}}\n", ps.join(", "))
@@ -585,6 +640,8 @@ pub fn gen_sig(t: &mut Tape, excl: &Excl) -> Sig {
         extern_bare: t.chance(1, 3),
         maybe_send_off,
         vis: *t.pick(&["", "pub", "pub(crate)"]),
+        outlives_inline: t.flip(),
+        phantom: t.chance(1, 6),
     }
 }
 
@@ -631,7 +688,8 @@ pub fn gen_case(t: &mut Tape, excl: &Excl) -> Case {
     }
     for _ in 0..t.weighted(&[4, 2, 1]) {
         let o = *t.pick(&["export = false", "mock_api = TheMock", "unimock = false", "mockall = false", "no_deps = false"]);
-        if !opts.iter().any(|x| x.split(' ').next() == o.split(' ').next()) && !(o.starts_with("no_deps") && sig.deps == Deps::NoDeps) {
+        // (don't-care: unimock's own un-mocked call of a fn whose parameters cannot be inferred)
+        if !opts.iter().any(|x| x.split(' ').next() == o.split(' ').next()) && !(o.starts_with("no_deps") && sig.deps == Deps::NoDeps) && !(o.starts_with("mock_api") && sig.phantom) {
             opts.push(o.to_string());
         }
     }
@@ -642,6 +700,7 @@ pub fn gen_case(t: &mut Tape, excl: &Excl) -> Case {
     let fn_src = sig.fn_src("the_fn");
     let (p_direct, p_via, wg) = sig.ptr_types();
     let targs = sig.trait_args();
+    let tf = sig.turbofish();
     let self_ty = sig.self_ty();
     let mut real = header();
     // the fn may come out of a `macro_rules!` expansion that is handed the trait's name (`$t:ident`) and the dependency's
@@ -661,7 +720,7 @@ pub fn gen_case(t: &mut Tape, excl: &Excl) -> Case {
     if !sig.is_async {
         // (an async fn's return type cannot be named in a fn-pointer type: the call witness carries the Output ascription instead)
         real.push_str(&format!(
-            "fn witness_ptr{wg}() {{\n    let _direct: {p_direct} = the_fn;\n    let _via: {p_via} = <{self_ty} as TheTrait{targs}>::the_fn;\n}}\n"
+            "fn witness_ptr{wg}() {{\n    let _direct: {p_direct} = the_fn{tf};\n    let _via: {p_via} = <{self_ty} as TheTrait{targs}>::the_fn;\n}}\n"
         ));
     }
     real.push_str(&sig.call_witness("the_fn", "TheTrait", true));
@@ -669,7 +728,7 @@ pub fn gen_case(t: &mut Tape, excl: &Excl) -> Case {
     let mut twin = header();
     twin.push_str(&format!("{fn_src}\n\n"));
     if !sig.is_async {
-        twin.push_str(&format!("fn witness_ptr{wg}() {{\n    let _direct: {p_direct} = the_fn;\n}}\n"));
+        twin.push_str(&format!("fn witness_ptr{wg}() {{\n    let _direct: {p_direct} = the_fn{tf};\n}}\n"));
     }
     twin.push_str(&sig.call_witness("the_fn", "TheTrait", false));
     twin.push_str("pub fn run() -> Vec<String> { vec![] }\n");
@@ -720,6 +779,12 @@ pub fn gen_case(t: &mut Tape, excl: &Excl) -> Case {
     if sig.deps_maybe_sized {
         classes.push("deps_bound_?Sized");
     }
+    if sig.phantom {
+        classes.push("type_and_const_parameters_not_inferable_from_the_call");
+    }
+    if sig.has_gen && sig.explicit_outlives && sig.outlives_inline && sig.params.iter().any(|p| matches!(p, PTy::RefGenNamed(_))) {
+        classes.push("inline_outlives_bound_on_extra_type_parameter");
+    }
     if sig.deps_lifetime_bound {
         classes.push("deps_lifetime_bound");
     }
@@ -732,6 +797,100 @@ pub fn gen_case(t: &mut Tape, excl: &Excl) -> Case {
         classes.push("concrete_deps");
     }
     Case { real, twin, summary: format!("#[entrait({attr})] {fn_src}"), nontrivial: score >= 2, classes }
+}
+
+/// Module leg: the fns of one entraited module name their type / const parameters alike (`T`, `U`, `N`), with equal or
+/// different bounds, in any declaration order; some use a parameter in no argument. The trait has one parameter per name.
+pub fn gen_mod_case(t: &mut Tape) -> Case {
+    const TB: [&str; 3] = ["Clone", "Default", "PartialEq"];
+    const UB: [&str; 2] = ["Clone", "Default"];
+    let nf = t.range(2, 4);
+    let mut order: Vec<&str> = vec![]; // first-appearance order of the names = parameter order of the trait
+    let mut fns_src = String::new();
+    let mut w_real = String::new();
+    let mut w_twin = String::new();
+    let mut shared = 0;
+    let mut any_phantom = false;
+    let mut summary = vec![];
+    for i in 0..nf {
+        let mut decl: Vec<(&str, String)> = vec![]; // (name, declaration)
+        let mut used: Vec<&str> = vec![];
+        if t.chance(2, 3) {
+            let bounds: Vec<&str> = TB.iter().copied().filter(|_| t.flip()).collect();
+            decl.push(("T", if bounds.is_empty() { "T".into() } else { format!("T: {}", bounds.join(" + ")) }));
+        }
+        if t.chance(1, 3) {
+            let bounds: Vec<&str> = UB.iter().copied().filter(|_| t.flip()).collect();
+            decl.push(("U", if bounds.is_empty() { "U".into() } else { format!("U: {}", bounds.join(" + ")) }));
+        }
+        if t.chance(1, 2) {
+            decl.push(("N", "const N: usize".into()));
+        }
+        let perm = t.permutation(decl.len());
+        let mut decl: Vec<(&str, String)> = perm.into_iter().map(|k| decl[k].clone()).collect();
+        let named_deps = t.flip();
+        if named_deps {
+            let at = t.choose(decl.len() + 1);
+            decl.insert(at, ("D", "D".into()));
+        }
+        let mut ps = vec![if named_deps { "deps: &D".to_string() } else { "deps: &impl Sized".to_string() }];
+        let mut args = vec!["a".to_string()];
+        for (name, _) in &decl {
+            if *name == "D" {
+                continue;
+            }
+            if !order.contains(name) {
+                order.push(name);
+            } else {
+                shared += 1;
+            }
+            // a parameter may appear in no argument
+            if t.chance(1, 5) {
+                any_phantom = true;
+                continue;
+            }
+            used.push(name);
+            match *name {
+                "T" => {
+                    ps.push("x: T".into());
+                    args.push("5i64".into());
+                }
+                "U" => {
+                    ps.push("u: U".into());
+                    args.push("String::new()".into());
+                }
+                _ => {
+                    ps.push("arr: [u8; N]".into());
+                    args.push("[0u8; 3]".into());
+                }
+            }
+        }
+        let g = if decl.is_empty() { String::new() } else { format!("<{}>", decl.iter().map(|d| d.1.clone()).collect::<Vec<_>>().join(", ")) };
+        let f = format!("pub fn f{i}{g}({}) {{ todo!() }}", ps.join(", "));
+        summary.push(f.clone());
+        fns_src.push_str(&format!("    {f}\n"));
+        w_real.push_str(&format!("    <A as TheTrait@ARGS@>::f{i}({});\n", args.join(", ")));
+        let phantom_here = decl.iter().any(|d| d.0 != "D" && !used.contains(&d.0));
+        let tf = if phantom_here {
+            format!("::<{}>", decl.iter().map(|d| match d.0 { "D" => "_", "T" => "i64", "U" => "String", _ => "3" }).collect::<Vec<_>>().join(", "))
+        } else {
+            String::new()
+        };
+        w_twin.push_str(&format!("    m::f{i}{tf}({});\n", args.join(", ")));
+    }
+    let targs = if order.is_empty() { String::new() } else { format!("<{}>", order.iter().map(|n| match *n { "T" => "i64", "U" => "String", _ => "3" }).collect::<Vec<_>>().join(", ")) };
+    let w_real = w_real.replace("@ARGS@", &targs);
+    let head = "#![allow(warnings)]\npub struct App;\npub type A = ::entrait::Impl<App>;\n";
+    let real = format!("{head}#[::entrait::entrait(pub TheTrait)]\npub mod m {{\n{fns_src}}}\nfn witness(a: &A) {{\n{w_real}}}\npub fn run() -> Vec<String> {{ vec![] }}\n");
+    let twin = format!("{head}pub mod m {{\n{fns_src}}}\nfn witness(a: &A) {{\n{w_twin}}}\npub fn run() -> Vec<String> {{ vec![] }}\n");
+    let mut classes = vec!["module_leg"];
+    if shared > 0 {
+        classes.push("module_fns_sharing_a_generic_parameter_name");
+    }
+    if any_phantom {
+        classes.push("type_and_const_parameters_not_inferable_from_the_call");
+    }
+    Case { real, twin, summary: format!("#[entrait(pub TheTrait)] mod m {{ {} }}", summary.join(" ")), nontrivial: shared > 0, classes }
 }
 
 fn first_error(diags: &[Diag]) -> String {
@@ -825,6 +984,44 @@ pub fn run(ctx: &mut Ctx) {
                         );
                         return;
                     }
+                }
+            }
+        }
+    }
+    // module leg
+    {
+        let n = ctx.n(400, 4000) as usize;
+        let tapes = crate::drive::gen_tapes(ctx.seed, 302, n, 64);
+        let cases: Vec<Case> = tapes.iter().map(|tp| gen_mod_case(&mut Tape::new(tp))).collect();
+        let (verdicts, records) = compile_cases("c03-mod", false, &cases);
+        super::common::crosscheck_records(ctx, &records);
+        for (i, v) in verdicts.iter().enumerate() {
+            total += 1;
+            match v {
+                None => {
+                    discarded += 1;
+                    ctx.class("generator_invalid_twin_failed");
+                    if ctx.extra.get("first_generator_invalid").is_none() {
+                        ctx.extra.insert("first_generator_invalid".into(), json!(cases[i].summary));
+                    }
+                }
+                Some(Ok(())) => {
+                    ctx.count_eval();
+                    for c in &cases[i].classes {
+                        ctx.class(c);
+                    }
+                    if cases[i].nontrivial {
+                        ctx.nontrivial(&cases[i].real);
+                        ctx.sample(|| json!({"program": cases[i].summary, "config": "plain"}));
+                    }
+                }
+                Some(Err(diags)) => {
+                    ctx.count_eval();
+                    ctx.violation(
+                        &format!("the fns of a module in the supported class do not compile after expansion: {} -- in {}", first_error(diags), cases[i].summary),
+                        &json!({"engine": "E2", "feature_unimock": false, "real": cases[i].real, "twin": cases[i].twin, "summary": cases[i].summary}),
+                    );
+                    return;
                 }
             }
         }
